@@ -313,3 +313,8 @@ _append('C17', 'note', 'Added (deductive): the legacy product-space ufunc wrappe
 _append('C18', 'note', 'Added (deductive): prepared FFTW plans - the contract of pyfftw_call executes a supplied plan as planned, init_fftw_plan followed by calls must equal the numpy back-end.')
 _append('C19', 'note', 'Added (BOUNDED): mirror-image volumes get mirror-image detectors from the 3-d factories; a volume never gets a shorter detector than a sub-volume.')
 _append('C20', 'note', 'Added (deductive): DiscretizedSpace.byaxis_in (class / shape / dtype / exponent / cell-volume weighting of the sub-space).')
+_append('C01', 'note', 'Added (BOUNDED): NaN in the previous contents of the output never influences set_zero / lincomb / multiply / assign / in-place operator calls in any size regime (1 defect repaired).')
+_append('C13', 'note', 'Added (BOUNDED): the is_linear flag of the four operator classes is truthful and (op * a)(x) == op(a x) (1 defect repaired: Laplacian).')
+_append('C17', 'note', 'Added (BOUNDED): reduce with integer / negative / tuple axes against NumPy (1 defect repaired: negative axes on discretized elements).')
+_append('C09', 'note', 'Added (deductive): quadratic perturbations of linear functionals incl. the affine case.')
+_append('C06', 'note', 'Added (deductive): no operand derivative is taken at a temporary the expression keeps for reuse (OperatorComp with tmp).')
